@@ -10,7 +10,7 @@
     by the harness. The geometric predicates (CrossingSign, VertexCrossing) are parameters: C02/C03
     own them; nothing here depends on their definition. *)
 From Coq Require Import ZArith List Bool.
-From Geo Require Import Base.GoPrim.
+From Geo Require Import Base.GoPrim Gen.CellID.
 Import ListNotations.
 Local Open Scope Z_scope.
 
@@ -225,3 +225,133 @@ Definition relation_eqb (x y : cell_relation) : bool :=
   | Disjoint, Disjoint => true
   | _, _ => false
   end.
+
+(** * The structural part of [index_ok] as a decision procedure, run by the correspondence on every
+      small index the observer dumps. [numEdges] lists NumEdges of each shape of the collection.
+      Cell validity and ranges are the translated [s2.CellID.IsValid/RangeMin/RangeMax] (Gen/CellID.v). *)
+Fixpoint increasingb (l : list Z) : bool :=
+  match l with
+  | [] => true
+  | x :: t => match t with [] => true | y :: _ => x <? y end && increasingb t
+  end.
+Definition clipped_okb (numEdges : list Z) (cl : clipped) : bool :=
+  (0 <=? cl_shape cl) && (cl_shape cl <? lenZ numEdges) &&
+  increasingb (cl_edges cl) &&
+  forallb (fun e => (0 <=? e) && (e <? nthZ numEdges (cl_shape cl) 0)) (cl_edges cl) &&
+  (negb (lenZ (cl_edges cl) =? 0) || cl_containsCenter cl).
+Definition cell_okb (numEdges : list Z) (c : Z * index_cell) : bool :=
+  (0 <=? fst c) && (fst c <? 2 ^ 64) && s2_CellID_IsValid (fst c) &&
+  negb (lenZ (snd c) =? 0) && increasingb (map cl_shape (snd c)) &&
+  forallb (clipped_okb numEdges) (snd c).
+(** consecutive cells: RangeMax of one below RangeMin of the next *)
+Fixpoint cells_disjointb (ids : list Z) : bool :=
+  match ids with
+  | [] => true
+  | x :: t => match t with [] => true | y :: _ => s2_CellID_RangeMax x <? s2_CellID_RangeMin y end
+              && cells_disjointb t
+  end.
+Definition index_okb (numEdges : list Z) (idx : index) : bool :=
+  forallb (cell_okb numEdges) idx && cells_disjointb (cell_ids idx).
+
+(** * Loop/Polygon.ContainsCell and IntersectsCell (s2/loop.go, s2/polygon.go): the decision
+      structure over the shape's own index (one shape, id 0). The clipping test of
+      boundaryApproxIntersects (ClipToPaddedFace + edgeIntersectsRect with maxError) is the
+      parameter [approx_meets]. [None] stands for the nil dereference of findByShapeID(0). *)
+Section CellRelations.
+  Variable point : Type.
+  Variable crossing_sign : point -> point -> point -> point -> crossing.
+  Variable vertex_crossing : point -> point -> point -> point -> bool.
+  Variable cell_center : Z -> point.
+  Variable approx_meets : point * point -> Z -> bool.
+
+  (** boundaryApproxIntersects(it, target), the iterator being at index cell [id] with entry [cl] *)
+  Definition boundary_approx_intersects (s : qshape point) (cl : clipped) (id target : Z) : bool :=
+    if lenZ (cl_edges cl) =? 0 then false
+    else if id =? target then true
+    else existsb (fun e => approx_meets e target) (edges_of point s (cl_edges cl)).
+
+  (** iteratorContainsPoint(it, p) *)
+  Definition iterator_contains_point (s : qshape point) (cl : clipped) (center p : point) : bool :=
+    if lenZ (cl_edges cl) =? 0 then cl_containsCenter cl
+    else fold_left (fun inside (e : point * point) =>
+                      xorb inside (edge_or_vertex_crossing point crossing_sign vertex_crossing center p (fst e) (snd e)))
+                   (edges_of point s (cl_edges cl)) (cl_containsCenter cl).
+
+  Definition contains_cell (s : qshape point) (idx : index) (target : Z) : option bool :=
+    match locate_cellid (cell_ids idx) target with
+    | Indexed pos =>
+        let '(id, cell) := nth_cell idx pos in
+        match find_by_shape cell 0 with
+        | None => None
+        | Some cl =>
+            if boundary_approx_intersects s cl id target then Some false
+            else Some (iterator_contains_point s cl (cell_center id) (cell_center target))
+        end
+    | _ => Some false
+    end.
+
+  Definition intersects_cell (s : qshape point) (idx : index) (target : Z) : option bool :=
+    match locate_cellid (cell_ids idx) target with
+    | Disjoint => Some false
+    | Subdivided _ => Some true
+    | Indexed pos =>
+        let '(id, cell) := nth_cell idx pos in
+        if id =? target then Some true else
+        match find_by_shape cell 0 with
+        | None => None
+        | Some cl =>
+            if boundary_approx_intersects s cl id target then Some true
+            else Some (iterator_contains_point s cl (cell_center id) (cell_center target))
+        end
+    end.
+End CellRelations.
+
+(** * CrossingEdgeQuery.getCellsForEdge / computeCellsIntersected / clipVAxis (s2/crossing_edge_query.go):
+      the descent over the cell tree, with the float clipping abstract. [B] is the edge bound
+      (r2.Rect) carried down; [left_only c b] is [edgeBound.X.Hi < center.X] for the padded cell of
+      [c] (padding 0), [right_only] is [edgeBound.X.Lo >= center.X], [lower_only]/[upper_only] the
+      same for Y; [split_u]/[split_v] are splitUBound/splitVBound at the centre of [c];
+      [child_ij c i j] is PaddedCellFromParentIJ(pcell, i, j).id. The result lists the positions
+      of the visited index cells in the order Go appends them to c.cells. *)
+Section Descent.
+  Variable B : Type.
+  Variables left_only right_only lower_only upper_only : Z -> B -> bool.
+  Variables split_u split_v : Z -> B -> B * B.
+  Variable child_ij : Z -> Z -> Z -> Z.
+  Variable cells : list Z.
+
+  (** clipVAxis(edgeBound, center.Y, i, pcell), given the recursive call *)
+  Definition clip_v_axis (rec : Z -> B -> list Z) (c i : Z) (b : B) : list Z :=
+    if lower_only c b then rec (child_ij c i 0) b
+    else if upper_only c b then rec (child_ij c i 1) b
+    else let '(b0, b1) := split_v c b in rec (child_ij c i 0) b0 ++ rec (child_ij c i 1) b1.
+
+  (** computeCellsIntersected(pcell, edgeBound); [fuel] bounds the recursion depth (levels) *)
+  Fixpoint compute_cells (fuel : nat) (c : Z) (b : B) : list Z :=
+    let pos := seek cells (range_min c) in
+    if (id_at cells pos =? sentinel) || (id_at cells pos >? range_max c) then []
+    else if id_at cells pos =? c then [pos]
+    else match fuel with
+    | O => []
+    | S fu =>
+        if left_only c b then clip_v_axis (compute_cells fu) c 0 b
+        else if right_only c b then clip_v_axis (compute_cells fu) c 1 b
+        else let '(b0, b1) := split_u c b in
+             if lower_only c b then compute_cells fu (child_ij c 0 0) b0 ++ compute_cells fu (child_ij c 1 0) b1
+             else if upper_only c b then compute_cells fu (child_ij c 0 1) b0 ++ compute_cells fu (child_ij c 1 1) b1
+             else clip_v_axis (compute_cells fu) c 0 b0 ++ clip_v_axis (compute_cells fu) c 1 b1
+    end.
+
+  (** one face segment of getCellsForEdge: [root] = edgeRoot (ShrinkToFit), [b] = edgeBound *)
+  Definition cells_for_segment (root : Z) (b : B) : list Z :=
+    match locate_cellid cells root with
+    | Indexed pos => [pos]
+    | Subdivided _ => compute_cells 31 root b
+    | Disjoint => []
+    end.
+  (** getCellsForEdge over the face segments *)
+  Definition cells_for_edge (segments : list (Z * B)) : list Z :=
+    flat_map (fun sg => cells_for_segment (fst sg) (snd sg)) segments.
+End Descent.
+Definition tab_meets (t : list ((Z * Z) * bool)) (e : Z * Z) (target : Z) : bool :=
+  tab_lookup t (fst e) (snd e) false.
